@@ -143,7 +143,7 @@ impl SyncTrackerRes {
                 .pushed_component_from_network
                 .insert(change_id);
             let entity = &mut world.entity_mut(e_id);
-            reflect_component.apply_or_insert(entity, component_data.as_reflect(), &registry);
+            reflect_component.insert(entity, component_data.as_reflect(), &registry);
             debug!(
                 "Applied component from network: {}v{} - {}",
                 e_id.index(),
